@@ -14,7 +14,8 @@ from lib import PropertyCheck, Tie
 
 sys.path.insert(0, str(lib.VERIF / 'tools' / 'translate'))
 
-CONTEXT_OPS = ['A22', 'B22', 'A23', 'A32', 'A33', 'H2', 'I2', 'D2', 'W', 'Q3', 'Pl', 'Hs', 'Is', 'BD', 'BR', 'BC', 'X3u', 'X3r', 'P3', 'Hm3', 'R23', 'M23', 'A66']
+# (the last two are operands of alg_cases.LET_EXT)
+CONTEXT_OPS = ['A22', 'B22', 'A23', 'A32', 'A33', 'H2', 'I2', 'D2', 'W', 'Q3', 'Pl', 'Hs', 'Is', 'BD', 'BR', 'BC', 'X3u', 'X3r', 'P3', 'Hm3', 'R23', 'M23', 'A66', 'Hm12', 'Rm12T']
 
 
 def build_expr(case, env):
@@ -64,9 +65,16 @@ class ReduceBase(PropertyCheck):
     coq_header = A.COQ_HEADER + 'From Furax Require Import Model.Wf Lemmas.ReduceStructsL Lemmas.ReduceTotalL Lemmas.ExecFactsL.\nFrom FuraxGen Require Import Tables.\n'
     shard = 120
     workers = 8
+    want_normal_form = False  # C07's oracle input (reduces the result again, tries every rule on every pair)
     trusted_common = [
         'translator tools/translate/tables.py (rule registry, class hierarchy, method resolution and lineax tags read '
-        'from the imported package; fails closed on unknown rules/classes)',
+        'from the imported package; fails closed on unknown rules/classes); it also translates the body of '
+        'AbstractBinaryRule.check statement by statement into Gallina (Props/Tables.v generic_check_as_modelled proves '
+        'it equal to guard_ok for all guards and operands) from a small Python subset, refusing everything else; '
+        'trusted there: `isinstance(x, self.C)` is only accepted where `self.C is not None` dominates it and '
+        '`x.operator` only where and-guarded by `self.<side>_operator_class is <lazy wrapper class>` (the class test '
+        'earlier in check() then guarantees the attribute exists), so the TypeError / AttributeError paths of the '
+        'Python expressions are not modelled; InverseBinaryRule.check (the only override) is pinned by its AST',
         'leaf operators act in the executable model through dense matrices measured on the real objects; the theorems '
         'quantify over arbitrary leaf semantics satisfying the stated algebraic facts (Lemmas/Sound.v `leaf_facts`)',
         'object identity (`is`) is modelled by harness-assigned object ids; objects created during reduce get id 0',
@@ -90,7 +98,7 @@ class ReduceBase(PropertyCheck):
         seen = set()
 
         inv_cls = A.J()['core'].InverseOperator
-        env = G.env()
+        env = G.env(True)
 
         def add(ops, ctx, kind, pattern=None):
             k = (tuple(ops), ctx)
@@ -104,7 +112,7 @@ class ReduceBase(PropertyCheck):
                 c['pattern'] = pattern
             out.append(c)
 
-        t = G.typed()
+        t = G.typed(True)
         self.stats['unbuildable_operands'] = {n: o.error for n, o in env.items() if isinstance(o, A.Unbuildable)}
         by_out, by_in = {}, {}
         for n in [n for n in CONTEXT_OPS if n in t]:
@@ -115,8 +123,9 @@ class ReduceBase(PropertyCheck):
             for ctx in ('bare', 'comp', 'sum1', 'blockdiag1'):
                 add([n], ctx, 'operand')
         # 1. every documented pattern alone, in every construction context
-        patterns = {k: v for k, v in G.PATTERNS.items() if all(n in t for n in v)}
-        self.stats['patterns_unbuildable'] = sorted(set(G.PATTERNS) - set(patterns))
+        all_patterns = {**G.PATTERNS, **G.PATTERNS_EXT}
+        patterns = {k: v for k, v in all_patterns.items() if all(n in t for n in v)}
+        self.stats['patterns_unbuildable'] = sorted(set(all_patterns) - set(patterns))
         # harness self-check: a hand-written pattern must be a chain-compatible expression
         bad = sorted(k for k, v in patterns.items() if any(t[a][0] != t[b][1] for a, b in zip(v[:-1], v[1:])))
         self.stats['patterns_illtyped'] = bad
@@ -127,6 +136,48 @@ class ReduceBase(PropertyCheck):
                     add(pat, ctx, 'pattern', pname)
             if len(pat) >= 2:
                 add(pat, 'nested', 'pattern', pname)
+        # 1b. foreign wrappers: every alphabet pair in which a lazy transpose / inverse stands next to an operator that a
+        # rule could mistake for the wrapped one (alg_cases.foreign_wrapper_pairs) - alone, with the adjacency arising
+        # only during the scan (a cancelling own-wrapper pair in between), and through the @ operator
+        foreign = {k: v for k, v in G.foreign_wrapper_pairs().items() if all(n in t for n in v)}
+        self.stats['foreign_wrapper_pairs'] = len(foreign)
+
+        def own_pair(p):
+            a, b = env[p[0]], env[p[1]]
+            return (G._is_wrapper(a) and a.operator is b) or (G._is_wrapper(b) and b.operator is a)
+
+        own = [p for _, p in sorted(patterns.items()) if len(p) == 2 and own_pair(p) and t[p[0]][1] == t[p[1]][0]]
+
+        def signature(pair):
+            # the classes a rule can see: of both operands and of what the wrappers wrap, plus the uniqueness flag
+            def sig(o):
+                inner = sig(o.operator) if G._is_wrapper(o) else None
+                return (type(o).__name__, inner, getattr(o, 'unique_indices', None))
+
+            return repr([sig(env[n]) for n in pair])
+
+        groups = {}
+        for fname, pair in sorted(foreign.items()):
+            groups.setdefault(signature(pair), []).append((fname, pair))
+        self.stats['foreign_wrapper_signatures'] = len(groups)
+        chosen = []
+        for _, members in sorted(groups.items()):
+            if quick and len(members) > 6:
+                # quick tier: a seeded sample of every class signature (the thorough tier takes every pair)
+                members = [members[i] for i in sorted(rng.sample(range(len(members)), 6))]
+            chosen += members
+        for k, (fname, pair) in enumerate(chosen):
+            add(pair, 'comp', 'foreign-wrapper', fname)
+            mids = [p for p in own if t[p[0]][1] == t[pair[0]][0]]
+            if mids and (k % 2 == 0 or not quick):
+                for m in (mids[k % len(mids):] + mids[:k % len(mids)])[:1 if quick else 3]:
+                    add(pair[:1] + m + pair[1:], 'comp', 'foreign-wrapper-scan', fname)
+            has_inv = any(contains_cls(env[n], inv_cls) for n in pair)
+            for ctx in (('matmul', 'rmatmul') if has_inv or not quick else ()):
+                add(pair, ctx, 'foreign-wrapper', fname)
+            if not quick:
+                for ctx in ('sum', 'T'):
+                    add(pair, ctx, 'foreign-wrapper', fname)
         # 2. every pattern embedded at every position of contexts of length <= 2 (quick) / 3 (thorough)
         maxctx = 2 if quick else 3
         for pname, pat in patterns.items():
@@ -134,25 +185,36 @@ class ReduceBase(PropertyCheck):
             lefts = [[]] + [[n] for n in by_in.get(pout, [])]
             rights = [[]] + [[n] for n in by_out.get(pin, [])]
             if maxctx >= 3:
-                lefts += [[m, n] for n in by_in.get(pout, []) for m in by_in.get(t[n][1], [])][:40]
-                rights += [[n, m] for n in by_out.get(pin, []) for m in by_out.get(t[n][0], [])][:40]
-            for l in lefts:
-                for r in rights:
-                    if len(l) + len(r) == 0 or len(l) + len(r) > maxctx:
-                        continue
-                    add(l + pat + r, 'comp', 'embedded', pname)
+                cap = 40 if pname in G.PATTERNS else 10
+                lefts += [[m, n] for n in by_in.get(pout, []) for m in by_in.get(t[n][1], [])][:cap]
+                rights += [[n, m] for n in by_out.get(pin, []) for m in by_out.get(t[n][0], [])][:cap]
+            combos = [(l, r) for l in lefts for r in rights if 0 < len(l) + len(r) <= maxctx]
+            if quick:
+                # every one-sided context; of the two-sided ones an evenly spread subset (none for the long patterns,
+                # which already carry their own context).  The thorough tier takes them all.
+                both = [c for c in combos if c[0] and c[1]]
+                keep = 0 if len(pat) > 2 else (24 if pname in G.PATTERNS else 6)
+                step = max(1, -(-len(both) // keep)) if keep else 0
+                combos = [c for c in combos if not (c[0] and c[1])] + (both[::step] if keep else [])
+            for l, r in combos:
+                add(l + pat + r, 'comp', 'embedded', pname)
         # 3. pairs of patterns next to each other / separated by one operator
-        pn = list(patterns)
+        npair = 0
+        pn = [k for k, v in patterns.items() if len(v) <= 2]  # (the longer ones are already contexts of a pair)
         for a in pn:
             for b in pn:
                 pa, pb = patterns[a], patterns[b]
                 if t[pa[-1]][0] == t[pb[0]][1]:
+                    if quick and not (a in G.PATTERNS and b in G.PATTERNS):
+                        npair += 1
+                        if npair % 4:
+                            continue  # quick tier: every fourth of the pairs involving a pattern of PATTERNS_EXT
                     add(pa + pb, 'comp', 'pattern-pair', f'{a}+{b}')
                     for mid in by_out.get(t[pa[-1]][0], []):
                         if t[mid][0] == t[pb[0]][1] and not quick:
                             add(pa + [mid] + pb, 'comp', 'pattern-pair', f'{a}+{b}')
         # 4. all type-compatible chains over the whole alphabet
-        allchains = G.chains(3 if quick else 4)
+        allchains = G.chains(3 if quick else 4, ext=True)
         rng.shuffle(allchains)
         budget = 700 if quick else 12000
         for ch in allchains[:budget]:
@@ -179,17 +241,23 @@ class ReduceBase(PropertyCheck):
 
     def rule(self):
         return (
-            'expressions over an alphabet of ~90 real operator objects (dense atoms square/wide/tall, identity, scalars, '
-            'diagonal, index (unique/repeated/negative/axis/ellipsis), pack, move-axis, ravel, reshape, QU rotations, HWP, '
-            'polariser, lazy transposes/inverses (same object and equal-but-distinct), block row/diag/column over '
-            'list/tuple/dict/nested/single containers): every documented pattern in 9 construction contexts, embedded at '
-            'every position of typed contexts, pairs of patterns, and all type-compatible chains (sampled). '
+            'expressions over an alphabet of ~185 real operator objects (dense atoms square/wide/tall, identity, scalars, '
+            'diagonal, index (unique/repeated/negative/axis/ellipsis, one-element / 0-d / empty / all-equal / permutation / '
+            '2-d index arrays, several leaves of equal and of different shapes), packs with different masks, move-axis, '
+            'ravel, reshape (also on pytrees whose leaves have different ranks: a no-op on some leaves only, both leaf '
+            'orders, axes (0,-1), (1,-1), (-2,-1)), QU rotations, HWP, polariser, lazy transposes/inverses (same object and '
+            'equal-but-distinct), block row/diag/column over list/tuple/dict/nested/single containers): every operand alone '
+            'in 4 contexts, every documented pattern in 9 construction contexts, embedded at every position of typed '
+            'contexts, pairs of patterns, foreign-wrapper near misses (every alphabet pair in which a lazy transpose / '
+            'inverse stands next to an operator of the wrapped class - or of a class a registered rule pairs it with - that '
+            'is not the wrapped object; alone and with the adjacency arising only during the scan; quick tier: a seeded '
+            'sample of 6 per class signature), and all type-compatible chains (sampled). '
             'Non-trivial: reduce() returned an operator whose skeleton differs from the input expression.'
         )
 
     # -- implementation ----------------------------------------------------------------------------
     def prepare(self, case):
-        env = G.env()
+        env = G.env(True)
         enc = A.Encoder()
         e = build_expr(case, env)
         return e, enc
@@ -212,7 +280,7 @@ class ReduceBase(PropertyCheck):
         except Exception as ex:
             obs['mat_before'] = None
             obs['mat_before_error'] = f'{type(ex).__name__}: {str(ex)[:200]}'
-        if red is not None:
+        if red is not None and self.want_normal_form:
             obs['normal_form'] = normal_form_report(red)
         case['_term'] = term
         case['_table'] = enc.table_coq()
